@@ -1,18 +1,17 @@
 """py2coq table for C12: the hard-coded rectangle-mass formulas of LevyCopulaModel
-(rpylib/model/levycopulamodel.py), translated over an abstract number type T and an abstract
-coordinate type X (Section variables) so that the SAME generated term is instantiated over
-extended rationals (to run) and extended reals (to prove).  Plug-in: harness/py2coq_ext_copula.py."""
+(rpylib/model/levycopulamodel.py), translated over an abstract `Num` N (Section variable; coordinates are
+`ext N`) so that the SAME generated term is instantiated over extended rationals (to run) and
+extended reals (to prove).  Plug-in: harness/py2coq_ext_copula.py."""
 
 HEADER = ("From Coq Require Import List Arith Bool.\nFrom RV Require Import Base.ExtNum.\nImport ListNotations.\n"
           "Set Implicit Arguments.\n")
 
 SECTION = [
-    ("X", "Type"), ("T", "Type"),
-    ("xlt0", "X -> bool"), ("xgt0", "X -> bool"), ("xge0", "X -> bool"), ("xdflt", "X"),
-    ("tzero", "T"), ("tadd", "T -> T -> T"), ("tsub", "T -> T -> T"),
-    ("U1", "nat -> X -> T"),            # self.marginal_tail_integral(i, x)
-    ("UI", "idx -> list X -> T"),       # self.margin_tail_integral(indices, x)
+    ("N", "Num"),
+    ("U1", "nat -> ext N -> N"),            # self.marginal_tail_integral(i, x)
+    ("UI", "idx -> list (ext N) -> N"),     # self.margin_tail_integral(indices, x)
 ]
+ABSDOM = {"zero": "(n0 N)", "add": "(nadd N)", "sub": "(nsub N)", "neg": "(nopp N)", "xdflt": "(Fin (n0 N))"}
 
 ATTRS = {"self.marginal_tail_integral": "U1", "self.margin_tail_integral": "UI"}
 
@@ -23,16 +22,17 @@ SPECS = {
         "header": HEADER,
         "ext": "py2coq_ext_copula",
         "section": SECTION,
+        "absdom": ABSDOM,
         "calls": {"self._mass_1d": "mass_1d", "self._mass_2d": "mass_2d"},
         "kwparams": {"self._mass_2d": ["a", "b", "indices"]},
         "funcs": [
             {"py": "LevyCopulaModel._mass_1d", "coq": "mass_1d", "pyargs": ["a", "b", "index"],
-             "args": [("a", "X"), ("b", "X"), ("index", "nat")], "ret": "T", "attrs": ATTRS},
+             "args": [("a", "ext N"), ("b", "ext N"), ("index", "nat")], "ret": "N", "attrs": ATTRS},
             {"py": "LevyCopulaModel._mass_2d", "coq": "mass_2d", "pyargs": ["a", "b", "indices"],
-             "args": [("a", "list X"), ("b", "list X"), ("indices", "idx")], "ret": "T", "attrs": ATTRS,
+             "args": [("a", "list (ext N)"), ("b", "list (ext N)"), ("indices", "idx")], "ret": "N", "attrs": ATTRS,
              "xlists": ["a", "b"], "ilists": ["indices"]},
             {"py": "LevyCopulaModel._mass_3d", "coq": "mass_3d", "pyargs": ["a", "b", "indices"],
-             "args": [("a", "list X"), ("b", "list X"), ("indices", "idx")], "ret": "T", "attrs": ATTRS,
+             "args": [("a", "list (ext N)"), ("b", "list (ext N)"), ("indices", "idx")], "ret": "N", "attrs": ATTRS,
              "xlists": ["a", "b"], "ilists": ["indices"]},
         ],
     },
